@@ -15,6 +15,7 @@ CONSTANTS
  MaxBreaks = 2
  Export = FALSE
  RunToBlock = FALSE
+ TrackInterrupts = FALSE
  Mut = "none"
 SPECIFICATION Spec
 INVARIANTS InvPausedQuiet InvFlushFresh InvPauseSurvives InvTerminatedGone InvReset InvC11 InvNeverPropagated InvLoopShape InvStatusMachine InvRecycle
